@@ -249,6 +249,11 @@ impl FaultedRx {
     }
 }
 
+/// forget every injected accept error of this thread
+pub fn clear_injected_accept_errors() {
+    crate::socket::verif_inject::clear()
+}
+
 /// the next `accept()` on the listener with raw fd `fd` (in this thread) fails with `err`
 pub fn inject_accept_error_fd(fd: i32, err: io::Error) {
     crate::socket::verif_inject::inject_fd(fd, err)
